@@ -550,6 +550,17 @@ impl<W: 'static, R: SeedableRng + RngCore + 'static, T: 'static> XSequence<W, R,
 }
 
 impl<W: 'static, R: 'static, T: 'static> XNativeValue for XSequence<W, R, T> {
+    #[cfg(xray_verif)]
+    fn verif_payload(&self) -> usize {
+        size_of::<usize>()
+            * match self {
+                Self::Array(a) => a.len(),
+                Self::Zip(a) => a.len(),
+                Self::Chain { parts, .. } => parts.len(),
+                _ => 0,
+            }
+    }
+
     fn dyn_size(&self) -> usize {
         match self {
             Self::Array(arr) => arr.len() * size_of::<Rc<ManagedXValue<W, R, T>>>(),
@@ -2026,4 +2037,20 @@ pub(crate) fn add_sequence_dyn_geo_mean<W, R, T>(
             },
         ))
     })
+}
+
+#[cfg(xray_verif)]
+impl<W: 'static, R: 'static, T: 'static> XSequence<W, R, T> {
+    pub(crate) fn verif_len(&self) -> Option<usize> {
+        self.len()
+    }
+
+    pub(crate) fn verif_get(
+        &self,
+        idx: usize,
+        ns: &RuntimeScope<W, R, T>,
+        rt: RTCell<W, R, T>,
+    ) -> XResult<Rc<ManagedXValue<W, R, T>>, W, R, T> {
+        self.get(idx, ns, rt)
+    }
 }
